@@ -82,6 +82,8 @@ func errReachesReturn(fn *ssa.Function, v ssa.Value) bool {
 						add(a)
 					case *ssa.FieldAddr:
 						add(a.X)
+					case *ssa.FreeVar:
+						add(a) // a variable captured by the closure: later loads of the cell see the value
 					}
 				}
 			case *ssa.UnOp:
@@ -314,4 +316,47 @@ func rootsOfArg(fn *ssa.Function, a ssa.Value) []ssa.Value {
 	}
 	walk(a)
 	return out
+}
+
+// recordedUnconditionally: every use of error value v that records it (a call taking it, a return of it) sits in a block
+// whose controlling conditions, beyond those already controlling v's definition, are only the nil test of v itself.
+func recordedUnconditionally(v ssa.Value) (bool, string) {
+	def, ok := v.(ssa.Instruction)
+	if !ok {
+		return false, "error value has no defining instruction"
+	}
+	base := map[ssa.Value]bool{}
+	for _, cd := range controlConds(def.Block()) {
+		base[cd.v] = true
+	}
+	n := 0
+	for _, r := range *v.Referrers() {
+		var blk *ssa.BasicBlock
+		switch in := r.(type) {
+		case ssa.CallInstruction:
+			blk = in.Block()
+		case *ssa.Return:
+			blk = in.Block()
+		case *ssa.Store:
+			blk = in.Block()
+		case *ssa.MakeInterface, *ssa.ChangeInterface:
+			blk = r.Block()
+		default:
+			continue
+		}
+		n++
+		for _, cd := range controlConds(blk) {
+			if base[cd.v] {
+				continue
+			}
+			if _, isNil := isNilCheck(cd.v, v); isNil {
+				continue
+			}
+			return false, "the error is recorded only under an additional condition (" + cd.v.String() + ")"
+		}
+	}
+	if n == 0 {
+		return false, "the error is never recorded"
+	}
+	return true, ""
 }
